@@ -56,6 +56,12 @@ theorem C11_tie_callsites :
     directly -/
 theorem C11_tie_storage_batch : Gen.has_txn_SetMany = [true] ∧ Gen.has_db_SetMany = [true] := by decide
 
+/-- quorum fields of a share (not part of the abstract model; compared field by field by the harness): both the share
+    built from a ValidatorAdded event and the share decoded from the database take (Quorum, PartialQuorum) in this
+    order from `ComputeQuorumAndPartialQuorum` = (2f+1, f+1), f = (n-1)/3 -/
+theorem C11_tie_share_quorum :
+    Gen.has_Decode_quorum = [true] ∧ Gen.has_quorum_formula = [true, true] ∧ Gen.has_event_quorum = [true] := by decide
+
 /-! ## batching independence -/
 
 /-- the full claim: the final state depends only on the flattened event list and the last block number -/
